@@ -428,7 +428,7 @@ func genC07(seed uint64, tier string) Plan {
 			if g.p(1, 5) {
 				op.Opaque = g.u32()
 			}
-			kinds := []string{"set", "add", "replace", "append", "prepend", "delete", "touch", "get", "mget", "noop", "version", "stats"}
+			kinds := []string{"set", "add", "replace", "append", "prepend", "delete", "touch", "get", "mget", "noop", "version", "stats", "bigmget"}
 			if proto == "bin" {
 				kinds = append(kinds, "gat", "qget", "qget", "gete", "setq")
 			}
@@ -475,6 +475,10 @@ func genC07(seed uint64, tier string) Plan {
 			case "mget":
 				op.Kind = "get"
 				addKeys(2+g.n(5), false)
+			case "bigmget":
+				// many / long keys: a text command line well beyond any 4 KiB buffer
+				op.Kind = "get"
+				addKeys(pick(g, []int{17, 20, 40, 120}), false)
 			case "qget":
 				op.Kind = "get"
 				addKeys(1+g.n(5), true)
